@@ -63,7 +63,7 @@ Definition z_chi_to_choi := chi_to_choi Ziops zi_conj zP.
 Definition z_chi_to_liouville := chi_to_liouville Ziops zi_conj zP.
 Definition z_chi_to_pauli := chi_to_pauli Ziops zi_conj zP.
 Definition z_to_pauli_liouville := to_pauli_liouville Ziops zi_conj zP.
-Definition z_to_pauli_liouville_fixed := to_pauli_liouville_fixed Ziops zi_conj zP.
+Definition z_to_pauli_liouville_prefix := to_pauli_liouville_prefix Ziops zi_conj zP.
 Definition z_to_chi := to_chi Ziops zi_conj zP.
 Definition z_kraus_to_stinespring := kraus_to_stinespring Ziops zi_conj.
 Definition z_stinespring_to_kraus := stinespring_to_kraus Ziops.
@@ -75,6 +75,7 @@ Definition z_qn_from_operator := qn_from_operator Ziops.
 Definition z_qn_from_operator_inv := qn_from_operator_inv Ziops.
 Definition z_qn_full := qn_full Ziops zi_conj.
 Definition z_qn_apply := qn_apply Ziops.
+Definition z_qn_apply_prefix := qn_apply_prefix Ziops.
 Definition z_qn_apply_pure := qn_apply_pure Ziops zi_conj.
 Definition z_qn_link := qn_link Ziops.
 Definition z_qn_state := qn_state Ziops.
